@@ -40,6 +40,39 @@ theorem opNoOvertakeB_iff (s : Sys) (op : SysOp) : opNoOvertakeB s op = true ↔
             exact h
           · intro h
             exact h me mb e rfl hs he
+  | close i =>
+    simp only [opNoOvertakeB, OpNoOvertake]
+    cases hi : s.sess[i]? with
+    | none => simp
+    | some me =>
+      simp only [Option.some.injEq]
+      cases hs : me.sel with
+      | none =>
+        simp only [true_iff]
+        intro me' mb' e' h1 h2
+        subst h1; rw [hs] at h2; cases h2
+      | some mb =>
+        cases he : effect s.idx me (sidOf i) .expunge with
+        | none =>
+          simp only [true_iff]
+          intro me' mb' e' h1 h2 h3
+          subst h1; rw [hs] at h2
+          simp only [Option.some.injEq] at h2
+          subst h2; rw [he] at h3; cases h3
+        | some e =>
+          simp only [Bool.or_eq_true, List.isEmpty_iff]
+          constructor
+          · intro h me' mb' e' h1 h2 h3
+            subst h1
+            rw [hs] at h2
+            simp only [Option.some.injEq] at h2
+            subst h2
+            rw [he] at h3
+            simp only [Option.some.injEq] at h3
+            subst h3
+            exact h
+          · intro h
+            exact h me mb e rfl hs he
   | select i mb =>
     simp only [opNoOvertakeB, OpNoOvertake]
     cases hi : s.sess[i]? with
@@ -65,6 +98,7 @@ instance NoOvertake.dec : (s : Sys) → (ops : List SysOp) → Decidable (NoOver
 def opQueueEmptyB (s : Sys) : SysOp → Bool
   | .cmd i _ => match s.sess[i]? with | none => true | some me => me.inbox.isEmpty
   | .select i _ => match s.sess[i]? with | none => true | some me => me.inbox.isEmpty
+  | .close i => match s.sess[i]? with | none => true | some me => me.inbox.isEmpty
   | _ => true
 
 theorem opQueueEmptyB_iff (s : Sys) (op : SysOp) : opQueueEmptyB s op = true ↔ OpQueueEmpty s op := by
@@ -76,6 +110,12 @@ theorem opQueueEmptyB_iff (s : Sys) (op : SysOp) : opQueueEmptyB s op = true ↔
       simp only [List.isEmpty_iff, Option.some.injEq]
       exact ⟨fun h me' h1 => h1 ▸ h, fun h => h me rfl⟩
   case select i mb =>
+    cases hi : s.sess[i]? with
+    | none => simp
+    | some me =>
+      simp only [List.isEmpty_iff, Option.some.injEq]
+      exact ⟨fun h me' h1 => h1 ▸ h, fun h => h me rfl⟩
+  case close i =>
     cases hi : s.sess[i]? with
     | none => simp
     | some me =>
@@ -95,6 +135,7 @@ theorem OpQueueEmpty.noOvertake {s : Sys} {op : SysOp} (h : OpQueueEmpty s op) :
   cases op with
   | cmd i c => intro me mb e h1 _ _; left; rw [h me h1]; rfl
   | select i mb => intro me h1; rw [h me h1]; rfl
+  | close i => intro me mb e h1 _ _; left; rw [h me h1]; rfl
   | conn c => trivial
   | drain i k => trivial
   | flush i p => trivial
